@@ -1,9 +1,11 @@
 """Which runner, theorems and trusted base belong to which property."""
 import netprops
+import cliprops
 
 _net = netprops.NetRunner()
 
 RUNNERS = {pid: _net for pid in netprops.CONFIG}
+RUNNERS["C10"] = cliprops.C10Runner()
 
 # (fully qualified theorem name, module that contains it)
 THEOREMS = {
